@@ -58,6 +58,18 @@ def is_dropped_call(n: ast.Call) -> bool:
     return False
 
 
+EXTERNAL_OPAQUE = {("datetime", "now"), ("time", "time"), ("time", "perf_counter_ns"), ("traceback", "format_exc"),
+                   ("timezone", "utc"), ("uuid", "uuid4")}
+RULES.append("external calls treated as opaque fresh values: datetime.now(), time.time(), time.perf_counter_ns(), traceback.format_exc()")
+
+
+def is_external_opaque(n: ast.Call) -> bool:
+    f = n.func
+    if isinstance(f, ast.Attribute) and isinstance(f.value, ast.Name):
+        return (f.value.id, f.attr) in EXTERNAL_OPAQUE
+    return False
+
+
 def is_dropped_unit(unit) -> bool:
     return unit.node.name in DROPPED_UNIT_NAMES
 
